@@ -88,6 +88,8 @@ def main(argv):
     tier = common.tier()
     n = 2500 if tier == "quick" else 100000
     rep = common.Report(PROP)
+    from checks import minimise as _MIN
+    rep.minimiser = lambda f: _MIN.scenario(f, lambda scn, seed: check(scn, seed))
     for r in common.run_batch("checks.c03", "run_one", range(n), {"tier": tier}):
         rep.absorb(r)
     return rep.finish(
@@ -107,7 +109,7 @@ def replay(path):
         rec = json.load(f)
     r = check(rec["scenario"], rec["seed"])
     same = [f for f in r["findings"] if f["rule"] == rec["rule"]]
-    print("replay %s: %s" % (path, "REPRODUCED rule=%s" % rec["rule"] if same else "not reproduced"))
+    print("replay %s: %s" % (path, "REPRODUCED rule=%s%s" % (rec["rule"], common.digest_note(rec, same)) if same else "not reproduced"))
     return 1 if same else 0
 
 
